@@ -63,7 +63,7 @@ impl Property for C16 {
         proptest::collection::vec(any::<u16>(), 0..(max_ops * 8 + 8))
             .prop_map(move |genes| {
                 let mut g = Genes::new(genes);
-                let cfg = HistCfg { max_ops, safe_strings: true, w_struct: 2, w_attr: 0, w_chardata: 12, w_create: 3, huge_offsets: true, max_doc: 5, w_compound: 1 };
+                let cfg = HistCfg { max_ops, safe_strings: true, w_struct: 2, w_attr: 0, w_chardata: 12, w_create: 3, huge_offsets: true, max_doc: 5, w_compound: 3 };
                 hist::gen_history(&mut g, &cfg)
             })
             .boxed()
@@ -142,6 +142,7 @@ impl Property for C16 {
             let had_parent = node.parent_node().is_some();
             // the character data of the parent as a whole: a split must not change it, in either view
             let parent_text_before: Option<String> = node.parent_node().and_then(|p| xml_dom::AsStringValue::as_string_value(&p).ok());
+            let parent_print_before: Option<String> = node.parent_node().map(|p| p.to_string());
             let before = pool.nodes.len();
             let out = hist::apply(&mut pool, op);
             if let Outcome::NotApplicable | Outcome::Excluded(_) = out {
@@ -272,6 +273,32 @@ impl Property for C16 {
                         fail!(
                             "c16.split_text.parent-text-changed".to_string(),
                             format!("step {} {}: the split changed the character data of the parent from {:?} to {:?}", step, op, parent_text_before, parent_text_after)
+                        );
+                    }
+                }
+                if had_parent {
+                    // the parent prints as before, but for the boundary a split CDATA section needs
+                    let after = node.parent_node().map(|p| p.to_string()).unwrap_or_default();
+                    let before_p = parent_print_before.clone().unwrap_or_default();
+                    let same = after == before_p || {
+                        let pat = "]]><![CDATA[";
+                        let mut found = false;
+                        let mut from = 0;
+                        while let Some(i) = after[from..].find(pat) {
+                            let at = from + i;
+                            let candidate = format!("{}{}", &after[..at], &after[at + pat.len()..]);
+                            if candidate == before_p {
+                                found = true;
+                                break;
+                            }
+                            from = at + 1;
+                        }
+                        found
+                    };
+                    if !same {
+                        fail!(
+                            "c16.split_text.parent-serialisation-changed".to_string(),
+                            format!("step {} {}: the split changed the parent from {:?} to {:?}", step, op, before_p, after)
                         );
                     }
                 }
